@@ -331,8 +331,19 @@ func c14(run *core.Run, replay string) {
 		for _, a := range aligns {
 			for li, l := range ls {
 				for oi, off := range offs {
-					if run.Thorough() && buf > 4096 && (li+oi+a)%7 != 0 {
-						continue // thin the biggest buffers
+					if run.Thorough() {
+						// the full (alignment x length 0..600 x offset -40..40) grid only for the smallest buffer; thinned for the others
+						switch {
+						case buf == 1024:
+						case buf <= 4096:
+							if (li+oi+a)%5 != 0 {
+								continue
+							}
+						default:
+							if (li+oi+a)%61 != 0 {
+								continue
+							}
+						}
 					}
 					// filler so that the array under test starts `off` bytes from the flush threshold (bufsize-8)
 					fill := buf - 8 + off
